@@ -639,6 +639,13 @@ func (tic *TermInCommittee) HandleViewChange(vcm *interfaces.ViewChangeMessage) 
 	}
 
 	header := vcm.Content().SignedHeader()
+	hasPreparedProof := header.PreparedProof() != nil && len(header.PreparedProof().Raw()) > 0
+	if hasPreparedProof != (vcm.Block() != nil) {
+		// a vote either carries a prepared proof together with its block, or neither: a proof without
+		// the block cannot be re-proposed, and the followers insist on the block of the highest proof
+		tic.logger.Info("LHMSG RECEIVED VIEW_CHANGE IGNORE - prepared proof and block must come together")
+		return
+	}
 	if vcm.Block() != nil && header.PreparedProof() != nil {
 		isValidDigest := tic.blockUtils.ValidateBlockCommitment(vcm.BlockHeight(), vcm.Block(), header.PreparedProof().PreprepareBlockRef().BlockHash())
 		if !isValidDigest {
